@@ -48,3 +48,40 @@ func checkChunkBufferIdentity(p *Program, r *Result, rule string) {
 		}
 	}
 }
+
+// C01.t: how much of the stream the CRC-validating lexer consumes for a chunk depends on the chunk's compression
+// format (a property of the data), not on which decoder implementation is installed for it. The drain of the frame
+// trailer (io.ReadAll after the chunk was buffered) must not be controlled by the decoder selection: a caller-supplied
+// decompressor for the same format leaves the same trailer behind.
+func checkTrailerDrain(p *Program, r *Result, rule string) {
+	entry := p.lookupFunc(pkgMcap, "loadChunk")
+	if entry == nil {
+		return
+	}
+	n := 0
+	for _, fn := range regionOf(p, entry, 3) {
+		for _, ci := range callsIn(fn, func(ci ssa.CallInstruction) bool { return calleeIs(ci, "io.ReadAll") || calleeIs(ci, "io.Copy") }) {
+			// the controlling conditions of the drain
+			src := map[string]bool{}
+			for d := ci.Block(); d != nil; d = d.Idom() {
+				if len(d.Preds) != 1 {
+					continue
+				}
+				if iff, ok := d.Preds[0].Instrs[len(d.Preds[0].Instrs)-1].(*ssa.If); ok {
+					valueSources(iff.Cond, src, map[ssa.Value]bool{}, 0)
+				}
+			}
+			n++
+			construct := "drain of the chunk's frame trailer (" + trimPkg(staticCalleeName(ci.Common())) + ")"
+			if src["field:Lexer.decompressors"] || src["field:Lexer.decoders"] {
+				r.violated(rule, funcName(fn), construct, p.pos(ci.Pos()),
+					"whether the trailing bytes of the compressed frame are consumed depends on which decoder was selected (built-in or caller-supplied), not only on the chunk's compression format; with a caller-supplied decompressor the base reader is left inside the chunk record and the next record is mis-framed")
+			} else {
+				r.held(rule, funcName(fn), construct, p.pos(ci.Pos()), "controlled by the chunk's compression format and the validation switch only")
+			}
+		}
+	}
+	if n == 0 {
+		r.note(rule, "mcap.loadChunk", "drain of the frame trailer", "", "no drain call found: not judged")
+	}
+}
